@@ -655,27 +655,37 @@ bool Interpret::getAssignment() const {
 }
 
 namespace { // Helper for get-value command
-void printAstTermNode(ASTNode const & astNode) {
+// The lexer strips the bars of a quoted symbol; put them back when echoing
+void printAstText(ASTNode const & node, Logic const & logic) {
+    if (node.getType() == QSYM_T) {
+        std::cout << '|' << node.getValue() << '|';
+    } else if (node.getType() == VARB_T) {
+        // a binding node keeps the name but not the kind of the symbol token
+        std::cout << logic.protectName(node.getValue(), false);
+    } else {
+        std::cout << node.getValue();
+    }
+}
+
+void printAstTermNode(ASTNode const & astNode, Logic const & logic) {
     ASTType t = astNode.getType();
     if (t == TERM_T) {
-        const char* name = (**(astNode.children->begin())).getValue();
-        std::cout << name;
+        printAstText(**(astNode.children->begin()), logic);
     } else if (t == QID_T) {
-            ASTNode const * symbolNode = (*(astNode.children->begin()));
-            char const * name = symbolNode->getValue();
-            std::cout << name;
+        printAstText(**(astNode.children->begin()), logic);
     } else if ( t == LQID_T ) {
         // Multi-argument term
         auto node_iter = astNode.children->begin();
-        const char* name = (**node_iter).getValue(); node_iter++;
+        ASTNode const & nameNode = **node_iter; node_iter++;
         std::cout << "(";
-        std::cout << name << " ";
+        printAstText(nameNode, logic);
+        std::cout << " ";
         bool first = true;
         for (; node_iter != astNode.children->end(); node_iter++) {
             if (not first) {
                 std::cout << " ";
             }
-            printAstTermNode(**node_iter);
+            printAstTermNode(**node_iter, logic);
             first = false;
         }
         std::cout << ")";
@@ -688,11 +698,13 @@ void printAstTermNode(ASTNode const & astNode) {
         assert(attr_l.children->size() == 1);
         ASTNode& name_attr = **(attr_l.children->begin());
         std::cout << "(!";
-        printAstTermNode(named_term);
-        std::cout << " " << name_attr.getValue();
+        printAstTermNode(named_term, logic);
+        std::cout << " ";
+        printAstText(name_attr, logic);
         ASTNode const & sym = **(name_attr.children->begin());
         assert(sym.getType() == SYM_T or sym.getType() == QSYM_T);
-        std::cout << " " << sym.getValue();
+        std::cout << " ";
+        printAstText(sym, logic);
         std::cout << ')';
     } else if (t == LET_T) {
         std::cout << "(let ";
@@ -703,15 +715,17 @@ void printAstTermNode(ASTNode const & astNode) {
         for (ASTNode const* vb : *(**ch).children) {
             if (not first) { std::cout << ' '; };
             first = false;
-            std::cout << "(" << vb->getValue() << " ";
-            printAstTermNode(**vb->children->begin());
+            std::cout << "(";
+            printAstText(*vb, logic);
+            std::cout << " ";
+            printAstTermNode(**vb->children->begin(), logic);
             std::cout << ")";
         }
         std::cout << ')';
         // print final term
         ch++;
         std::cout << ' ';
-        printAstTermNode(**ch);
+        printAstTermNode(**ch, logic);
         std::cout << ')';
     }
     else {
@@ -741,7 +755,7 @@ void Interpret::getValue(std::vector<ASTNode*> const & terms)
         std::cout << '(';
         for (auto const & valPair : values) {
             std::cout << '(';
-            printAstTermNode(*valPair.first);
+            printAstTermNode(*valPair.first, logic);
             auto value = logic.termToSMT2String(valPair.second);
             std::cout << " " << value << ')';
         }
